@@ -108,7 +108,7 @@ def validate(segs):
     shutil.rmtree(d, ignore_errors=True)
     msg = None
     if not r["ok"]:
-        m = re.search(r'<<"REJECTED_AT".*', r.get("full", "") + r["out"])
+        m = re.search(r'<<"REJECTED_AT".*', "\n".join(r.get("notes", [])) + r.get("full", "") + r["out"])
         msg = m.group(0) if m else r["violation"]
     return r["ok"], n, msg, r["states"]
 
